@@ -228,6 +228,34 @@ Proof.
   - symmetry. apply (high_bits v 64); assumption.
 Qed.
 
+(* the swaps are functions INTO [0, 2^n), for every argument (no high bits survive the masks) *)
+Lemma below_pow2_of_bits a n : (forall i, n <= i -> N.testbit a i = false) -> a < 2 ^ n.
+Proof.
+  intro H. destruct (N.eq_dec a 0) as [->|NZ].
+  - assert (2 ^ n <> 0) by (apply N.pow_nonzero; lia). lia.
+  - apply N.log2_lt_pow2; [lia|].
+    destruct (N.lt_ge_cases (N.log2 a) n) as [L|G]; [exact L|].
+    pose proof (N.bit_log2 a NZ) as B. rewrite (H _ G) in B. discriminate.
+Qed.
+
+Lemma swap16_range_l : forall v, swap16 v < 2 ^ 16.
+Proof.
+  intro v. apply below_pow2_of_bits. intros i Hi. rewrite swap16_bits.
+  replace (i <? 16) with false by (symmetry; apply N.ltb_ge; exact Hi). reflexivity.
+Qed.
+
+Lemma swap32_range_l : forall v, swap32 v < 2 ^ 32.
+Proof.
+  intro v. apply below_pow2_of_bits. intros i Hi. rewrite swap32_bits.
+  replace (i <? 32) with false by (symmetry; apply N.ltb_ge; exact Hi). reflexivity.
+Qed.
+
+Lemma swap64_range_l : forall v, swap64 v < 2 ^ 64.
+Proof.
+  intro v. apply below_pow2_of_bits. intros i Hi. rewrite swap64_bits.
+  replace (i <? 64) with false by (symmetry; apply N.ltb_ge; exact Hi). reflexivity.
+Qed.
+
 Example swap_witnesses :
   swap16 258 = 513 /\ swap32 16909060 = 67305985 /\ swap64 72623859790382856 = 578437695752307201.
 Proof. vm_compute. repeat split; reflexivity. Qed.
